@@ -379,12 +379,19 @@ type v12Obs struct {
 	hook     int
 	logged   int
 	labelsOK bool
+	mutated  string // verifyRAs changed one of its arguments (the case is rendered AFTER the call: it would hide it)
 }
 
 func v12Direct(a, b *ndp.RouterAdvertisement) v12Obs {
 	var o v12Obs
+	da, db := verifh.DeepDump(a), verifh.DeepDump(b)
 	for _, p := range verifyRAs(a, b) {
 		o.reported = append(o.reported, v12Problem{p.Field, p.Details})
+	}
+	if d := verifh.DeepDiff(da, verifh.DeepDump(a)); d != "" {
+		o.mutated = "verifyRAs altered its first argument (the own RA, which may share memory with the configuration): " + d
+	} else if d := verifh.DeepDiff(db, verifh.DeepDump(b)); d != "" {
+		o.mutated = "verifyRAs altered its second argument: " + d
 	}
 	o.labelsOK = true
 	return o
@@ -421,9 +428,13 @@ func v12ViaHandle(cfg config.Interface, theirs *ndp.RouterAdvertisement, times i
 		}
 	}
 	before, lines0, hooks0 := v12Samples(mem), bytes.Count(buf.Bytes(), []byte("\n")), hooks
+	snapshot := verifh.DeepDump(cfg) // the own RA may share memory with the configuration's plugins
 	dst, err := a.handle(theirs, host)
 	if err != nil {
 		return o, nil, err
+	}
+	if d := verifh.DeepDiff(snapshot, verifh.DeepDump(cfg)); d != "" {
+		return o, nil, fmt.Errorf("the consistency check altered the configuration: %s", d)
 	}
 	if dst.IsValid() {
 		return o, nil, fmt.Errorf("handle answered an RA with destination %s", dst)
@@ -530,8 +541,9 @@ func (e *v12Emitter) emit(id string, mode int, ours, theirs *ndp.RouterAdvertise
 			v12RenderProblems(rd, o.reported), verifh.N(uint64(o.hook)), verifh.N(uint64(o.logged)), verifh.B(o.labelsOK)),
 		Input: map[string]any{"mode": mode, "self": self, "ours": v12Summary(ours), "theirs_decoded": v12Summary(theirs),
 			"kinds_on_both_sides": both},
-		Observed: map[string]any{"reported": o.reported, "hook": o.hook, "logged": o.logged},
-		Tags:     tags,
+		Observed:      map[string]any{"reported": o.reported, "hook": o.hook, "logged": o.logged},
+		Tags:          tags,
+		ImplViolation: o.mutated,
 	})
 }
 
@@ -662,6 +674,9 @@ func TestVerifC12(t *testing.T) {
 				t.Fatalf("%s: prepare: %v", id, err)
 			}
 		}
+		// the own RA may share memory with the parsed configuration (DNSSL names, RDNSS servers): a deep dump
+		// taken before anything is compared must still hold after verifyRAs and after handle
+		snapshot := verifh.DeepDump(ifi)
 		ours, _, err := ifi.RouterAdvertisement(true)
 		if err != nil {
 			t.Fatalf("%s: own RA: %v", id, err)
@@ -675,7 +690,13 @@ func TestVerifC12(t *testing.T) {
 			self = 2
 		}
 		tags = append(tags, "stream:cfg")
-		e.emit(id, 0, ours, image, self, v12Direct(ours, image), append([]string{"order:ours-image"}, tags...))
+		direct := v12Direct(ours, image)
+		if d := verifh.DeepDiff(snapshot, verifh.DeepDump(ifi)); d != "" {
+			out.Emit(verifh.Case{ID: id + "-cfg", ImplViolation: "verifyRAs altered the configuration behind the own RA: " + d,
+				Input: map[string]any{"config": toml}})
+			continue
+		}
+		e.emit(id, 0, ours, image, self, direct, append([]string{"order:ours-image"}, tags...))
 		o, built, err := v12ViaHandle(ifi, image, 1)
 		if err != nil {
 			out.Emit(verifh.Case{ID: id + "-h", ImplViolation: "Advertiser.handle failed on its own router advertisement: " + err.Error(),
@@ -728,9 +749,13 @@ func (h *v12Harness) deliver(theirs *ndp.RouterAdvertisement) (v12Obs, *ndp.Rout
 	lines := func() int { return bytes.Count(h.buf.Bytes(), []byte("inconsisten")) }
 	before, lines0, hooks0 := v12Samples(h.mem), lines(), h.hooks
 	h.hookOurs = nil
+	snapshot := verifh.DeepDump(h.cfg) // the own RA may share memory with the configuration's plugins
 	dst, err := h.a.handle(theirs, netip.MustParseAddr("fe80::2"))
 	if err != nil {
 		return o, nil, err
+	}
+	if d := verifh.DeepDiff(snapshot, verifh.DeepDump(h.cfg)); d != "" {
+		return o, nil, fmt.Errorf("the consistency check altered the configuration: %s", d)
 	}
 	if dst.IsValid() {
 		return o, nil, fmt.Errorf("handle answered an RA with destination %s", dst)
@@ -1050,7 +1075,8 @@ func v12Config(r *verifh.Rand) (string, []string) {
 		// still compare zoned and zone-less addresses
 		zone := ""
 		_ = r.Chance(30)
-		fmt.Fprintf(&sb, "  [[interfaces.rdnss]]\n  servers = [\"2001:db8::%d\", \"fe80::1:%d%s\"]\n", 50+k, k, zone)
+		// several servers / names per stanza, NOT in ascending order (an in-place sort by the check would show)
+		fmt.Fprintf(&sb, "  [[interfaces.rdnss]]\n  servers = [\"fe80::1:%d%s\", \"2001:db8::%d\", \"fd00::53\"]\n", k, zone, 50+k)
 		if r.Chance(70) {
 			fmt.Fprintf(&sb, "  lifetime = \"%s\"\n", secs(1, 100000))
 		} else {
@@ -1058,7 +1084,7 @@ func v12Config(r *verifh.Rand) (string, []string) {
 		}
 	}
 	for k := r.Intn(3); k > 0; k-- {
-		fmt.Fprintf(&sb, "  [[interfaces.dnssl]]\n  domain_names = [\"d%d.example.com\", \"lan%d.example.org\"]\n", k, k)
+		fmt.Fprintf(&sb, "  [[interfaces.dnssl]]\n  domain_names = [\"lan%d.example.org\", \"d%d.example.com\", \"Mid.Example.NET\"]\n", k, k)
 		if r.Chance(70) {
 			fmt.Fprintf(&sb, "  lifetime = \"%s\"\n", secs(1, 100000))
 		} else {
